@@ -13,6 +13,10 @@ from .result import Result
 def main(argv):
     prop, spec_path, out_path = argv
     faulthandler.enable()
+    import signal
+    # the driver sends SIGUSR1 before killing a shard that exceeded its
+    # watchdog, so that the stacks of all threads end up in the shard log
+    faulthandler.register(signal.SIGUSR1, all_threads=True, chain=False)
     with open(spec_path) as fd:
         spec = json.load(fd)
     res = Result()
